@@ -28,6 +28,9 @@ pub struct Parsed {
     pub members: Vec<Option<(bool, u64, u64)>>,
     pub params: Vec<Option<bool>>,
     pub vals: Vec<Vec<(Vec<u8>, Val)>>,
+    /// outcome of the in-program comparison of type_info() with the registry (C02)
+    pub sim: Option<Result<usize, String>>,
+    pub stdout: String,
 }
 
 pub const FULL: [&str; 7] = ["std", "derive", "serde", "decode", "docs", "bit-vec", "schema"];
@@ -76,7 +79,7 @@ pub fn classify_compile_failure(p: &Program) -> &'static str {
 
 pub fn parse_output(prog: &Program, stdout: &str) -> Result<Parsed, String> {
     let n = prog.roots.len();
-    let mut p = Parsed { reg: MReg::default(), reg_bytes: vec![], type_ids: vec![None; n], infos: vec![None; n], members: vec![None; n], params: vec![None; n], vals: vec![vec![]; n] };
+    let mut p = Parsed { reg: MReg::default(), reg_bytes: vec![], type_ids: vec![None; n], infos: vec![None; n], members: vec![None; n], params: vec![None; n], vals: vec![vec![]; n], sim: None, stdout: stdout.to_string() };
     let mut saw_reg = false;
     for line in stdout.lines() {
         let mut it = line.splitn(2, ' ');
@@ -91,6 +94,13 @@ pub fn parse_output(prog: &Program, stdout: &str) -> Result<Parsed, String> {
                 }
                 p.reg = m;
                 saw_reg = true;
+            }
+            "SIM" => {
+                let mut w = rest.splitn(2, ' ');
+                p.sim = Some(match w.next() {
+                    Some("ok") => Ok(w.next().and_then(|x| x.parse().ok()).unwrap_or(0)),
+                    _ => Err(w.next().unwrap_or("").to_string()),
+                });
             }
             "TYPE" => {
                 let mut w = rest.split(' ');
@@ -177,6 +187,9 @@ fn attr_classes(p: &Program, obs: &mut Obs) {
             }
             if vs.iter().any(|v| v.discriminant.is_some()) {
                 obs.class("enum/discriminant");
+            }
+            if vs.iter().any(|v| v.discriminant.is_some() && v.shape != Shape::Unit) {
+                obs.class("enum/discriminant_on_variant_with_fields");
             }
         }
         if !d.attr.skip_params.is_empty() {
@@ -507,4 +520,139 @@ pub fn prog_case(n_defs: std::ops::Range<usize>, o: gen::DefOpts, n_entropy: usi
 
 pub fn builtin_case(enc: bool, n_entropy: usize) -> BoxedStrategy<ProgCase> {
     (gen::builtin_program(enc), gen::entropies(n_entropy)).prop_map(|(prog, entropies)| ProgCase { prog, entropies }).boxed()
+}
+
+
+// ------------------------------------------------------------- C01 / C02 / C11 on real Rust types
+
+fn run_or_fail(case: &ProgCase, obs: &mut Obs) -> Result<Option<Parsed>, String> {
+    match build_and_run(case, &FULL)? {
+        Ok(p) => Ok(Some(p)),
+        Err(reason) => {
+            let sig = reason.strip_prefix("[sig:").and_then(|r| r.split(']').next()).unwrap_or("derive-rejects").to_string();
+            obs.fail_sig(&sig, reason)?;
+            Ok(None)
+        }
+    }
+}
+
+/// C01 on registries of derived / built-in types: dense, closed, ids handed out resolve, and
+/// retain on it (mask from the case's entropy) is again dense and closed
+pub fn c01_prog_body(case: &ProgCase, obs: &mut Obs) -> Result<(), String> {
+    let Some(parsed) = run_or_fail(case, obs)? else { return Ok(()) };
+    wf_model(&parsed.reg).map_err(|e| format!("[sig:registry-not-closed] registry of real Rust types: {e}"))?;
+    let lib = to_lib(&parsed.reg);
+    wf_lib(&lib).map_err(|e| format!("[sig:registry-not-closed] registry of real Rust types: {e}"))?;
+    for (k, id) in parsed.type_ids.iter().enumerate() {
+        let id = id.ok_or("harness: missing TYPE line")?;
+        if lib.resolve(id).is_none() {
+            return Err(format!("id {id} returned for root #{k} does not resolve"));
+        }
+    }
+    let mask: Vec<u8> = case.entropies.first().cloned().unwrap_or_default();
+    let accept = |id: u32| -> bool {
+        if mask.is_empty() {
+            id % 2 == 0
+        } else {
+            (mask[(id as usize / 8) % mask.len()] >> (id % 8)) & 1 == 1
+        }
+    };
+    if !parsed.reg.types.is_empty() {
+        let (_, out) = vcore::p_reg::check_retain(&parsed.reg, &accept).map_err(|e| format!("retain on a registry of real Rust types: {e}"))?;
+        wf_model(&out)?;
+    }
+    if parsed.reg.types.len() >= 2 && parsed.reg.types.iter().any(|t| !t.ty.refs().is_empty()) {
+        obs.nontrivial(&parsed.reg_bytes);
+    }
+    attr_classes(&case.prog, obs);
+    if parsed.reg.types.iter().any(|t| t.ty.refs().contains(&t.id)) {
+        obs.class("graph/self_loop");
+    }
+    if obs.want_sample() {
+        let ctx = case.prog.root_ctx();
+        obs.sample(json!({"roots": case.prog.roots.iter().map(|r| r.rust(&ctx)).collect::<Vec<_>>(), "registry_entries": parsed.reg.types.len(), "ids": parsed.type_ids}));
+    }
+    Ok(())
+}
+
+/// C02 on real Rust types: the in-program coinductive comparison must succeed
+pub fn c02_prog_body(case: &ProgCase, obs: &mut Obs) -> Result<(), String> {
+    let Some(parsed) = run_or_fail(case, obs)? else { return Ok(()) };
+    match &parsed.sim {
+        Some(Ok(n)) => {
+            if *n >= 2 {
+                obs.nontrivial(&(&case.prog, &parsed.reg_bytes));
+            }
+            obs.class_n("type_id_pairs_compared", *n as u64);
+        }
+        Some(Err(e)) => return Err(format!("[sig:unfaithful] the portable registry is not a faithful image of type_info(): {e}")),
+        None => return Err("harness: missing SIM line".into()),
+    }
+    attr_classes(&case.prog, obs);
+    for r in &case.prog.roots {
+        te_classes(r, obs);
+    }
+    if obs.want_sample() {
+        let ctx = case.prog.root_ctx();
+        obs.sample(json!({"roots": case.prog.roots.iter().map(|r| r.rust(&ctx)).collect::<Vec<_>>(), "pairs_compared": parsed.sim, "registry_entries": parsed.reg.types.len()}));
+    }
+    Ok(())
+}
+
+/// C11 on real Rust types: a second process prints the same bytes; the roots registered in another
+/// order give an isomorphic registry
+pub fn c11_prog_body(case: &ProgCase, obs: &mut Obs) -> Result<(), String> {
+    let Some(parsed) = run_or_fail(case, obs)? else { return Ok(()) };
+    // same program, another process
+    let a = farm::anchor(&FULL)?;
+    let out = farm::compile(&a, &case.prog.source(true), true)?;
+    let run2 = farm::run(out.bin.as_ref().ok_or("no binary")?, &[], Duration::from_secs(30))?;
+    let reg2 = run2.stdout.lines().find_map(|l| l.strip_prefix("REG ")).map(vsupport::unhex).ok_or("harness: no REG line on the second run")?;
+    if reg2 != parsed.reg_bytes {
+        return Err("[sig:not-reproducible] two processes running the same registrations print different registries".into());
+    }
+    // another order of the roots
+    let n = case.prog.roots.len();
+    let mut nontrivial = false;
+    if n >= 2 {
+        let mut order: Vec<usize> = (0..n).collect();
+        let keys: Vec<u8> = case.entropies.first().cloned().unwrap_or_default();
+        order.sort_by_key(|i| keys.get(*i).copied().unwrap_or((*i as u8).wrapping_mul(151)));
+        if order.iter().enumerate().all(|(p, i)| p == *i) {
+            order.reverse();
+        }
+        let permuted = ProgCase { prog: Program { defs: case.prog.defs.clone(), roots: order.iter().map(|i| case.prog.roots[*i].clone()).collect() }, entropies: vec![] };
+        let Some(other) = run_or_fail(&permuted, obs)? else { return Ok(()) };
+        if other.reg.types.len() != parsed.reg.types.len() {
+            return Err(format!("[sig:order-dependent] registering the same roots in another order gives {} entries instead of {}", other.reg.types.len(), parsed.reg.types.len()));
+        }
+        let pairs: Vec<(u32, u32)> = order.iter().enumerate().map(|(pos, i)| (parsed.type_ids[*i].unwrap_or(0), other.type_ids[pos].unwrap_or(0))).collect();
+        let map = vcore::p_hist::iso_extend(&parsed.reg, &other.reg, &pairs).map_err(|e| format!("[sig:order-dependent] registries of two registration orders are not isomorphic: {e}"))?;
+        if map.len() != parsed.reg.types.len() {
+            return Err("[sig:order-dependent] the root-induced renaming does not cover every entry".into());
+        }
+        nontrivial = true;
+        if other.reg_bytes != parsed.reg_bytes {
+            obs.class("permutation/changes_numbering");
+        }
+    }
+    if nontrivial {
+        obs.nontrivial(&(&case.prog, &parsed.reg_bytes));
+    }
+    attr_classes(&case.prog, obs);
+    if obs.want_sample() {
+        let ctx = case.prog.root_ctx();
+        obs.sample(json!({"roots": case.prog.roots.iter().map(|r| r.rust(&ctx)).collect::<Vec<_>>(), "registry_entries": parsed.reg.types.len(), "second_process_identical": true}));
+    }
+    Ok(())
+}
+
+/// programs mixing derived definitions with built-in roots
+pub fn mixed_case(n_entropy: usize) -> BoxedStrategy<ProgCase> {
+    (gen::program(1..4, gen::DefOpts { encode: false, bitvec: true, rich_attrs: false, encoded_as: false }), gen::builtin_program(false), gen::entropies(n_entropy))
+        .prop_map(|(mut p, b, entropies)| {
+            p.roots.extend(b.roots);
+            ProgCase { prog: p, entropies }
+        })
+        .boxed()
 }
